@@ -1333,6 +1333,12 @@ func (s *TxStore) RemoveRelevantTx(tx mwdb.DBTransaction, addrmgr *keystore.Addr
 			removable = !spends
 		}
 		if removable {
+			// the transaction no longer reserves the coins it spends: a record left in the
+			// unmined-inputs bucket would keep them marked as spent by a transaction that is gone
+			rec.Hash = hash
+			if err = s.utxoStore.deleteUnminedInputs(tx, &rec); err != nil {
+				return nil, false, err
+			}
 			err = deleteRawUnmined(nsUnmined, hash[:])
 			if err != nil {
 				return nil, false, err
